@@ -290,10 +290,12 @@ def must_pass_through(fn, pred_blocks, mode='accept', loop=None):
         return _path(fn, 0, targets, removed)
     elif mode == 'iteration':
         latch, header = loop
-        if header in removed or latch in removed:
+        # `continue` gives a loop several back edges: an iteration ends at any latch of the same header
+        latches = {l for l, h in fn.backedges if h == header} | {latch}
+        if header in removed or latches <= removed:
             return None
         # a path header -> ... -> latch avoiding removed blocks
-        return _path(fn, header, {latch}, removed)
+        return _path(fn, header, latches - removed, removed)
     raise ValueError(mode)
 
 
